@@ -220,6 +220,11 @@ fn create_ack(
         method: Method::ACK,
     });
 
+    // The ACK must carry the same Route header fields as the INVITE (RFC 3261 17.1.1.3)
+    if request.msg.headers.contains(&Name::ROUTE) {
+        request.msg.headers.clone_into(&mut headers, Name::ROUTE)?;
+    }
+
     Ok(OutgoingRequest {
         msg: Request {
             line: RequestLine {
